@@ -112,3 +112,14 @@ Definition check_cc (cs : bool * absval * names * result (list cmd)) : bool :=
   | Ok mine, Ok theirs => runs_to x n theirs && runs_to x n mine
   | _, _ => false
   end.
+
+(* ---- (c) Data.__str__: the model's text against str(d) of the implementation
+   (the repaired code: except Exception at the three conversion sites) ---- *)
+Definition check_data_str (cs : ddata * result string) : bool :=
+  let '(d, obs) := cs in
+  wf_ddata d &&
+  match data_str k_repaired d, obs with
+  | Ok a, Ok b => String.eqb a b
+  | Err e1, Err e2 => errk_eqb e1 e2
+  | _, _ => false
+  end.
